@@ -921,6 +921,20 @@ def no_neg_zero(out):
     return progen.canon_neg_zero(out)
 
 
+NEG_ZERO_SKIPS = [0]
+
+
+def every_neg_zero(obj):
+    """every '-0' in every string -> '0' (used only to recognise a difference that is nothing but the text of negative zero)"""
+    if isinstance(obj, str):
+        return obj.replace('-0', '0')
+    if isinstance(obj, list):
+        return [every_neg_zero(x) for x in obj]
+    if isinstance(obj, dict):
+        return {k: every_neg_zero(v) for k, v in obj.items()}
+    return obj
+
+
 def report(ctx, oracle_bad, input_):
     for name, expected, _ in oracle_bad:
         if name == 'model-immutable':        # the execution changed the model object: the witness is the model as it was before
@@ -956,7 +970,15 @@ def run_chunk(ctx, stream, st, chunk, max_statements, fuel, nontrivial_fn, use_d
         impl, bad = impl_oracles(model, g, max_statements)
         st.case(case, nontrivial=nontrivial_fn(model, impl), tags=list(tags) + outcome_tags(impl))
         if resp is not None and '<cycle>' not in json.dumps(impl):      # self-containing containers: F18 territory, not compared
-            ctx.compare(stream, case, no_neg_zero(impl), no_neg_zero(progen.canon_model_out(resp)))
+            got, want = no_neg_zero(impl), no_neg_zero(progen.canon_model_out(resp))
+            if got != want and every_neg_zero(got) == every_neg_zero(want):
+                # "-0" glued to a following digit by string concatenation ('y' + -0 + 1): the same documented restriction
+                NEG_ZERO_SKIPS[0] += 1
+                if NEG_ZERO_SKIPS[0] == 1:
+                    ctx.notes.append('a case whose only difference is the text of negative zero inside a concatenated string was not '
+                                     'compared with the Lean model (ASSUMPTIONS: negative zero); first: ' + json.dumps(case)[:300])
+            else:
+                ctx.compare(stream, case, got, want)
         # the model executed just before is part of the witness: a defect that carries state from one execution to the next
         # (the property says executions are independent) only shows with that history
         report(ctx, bad, {'model': model, 'globals': g, 'max': max_statements, 'history': [prev] if prev is not None else []})
